@@ -86,6 +86,15 @@ type SDeep struct {
 	SDContact
 }
 
+// SBlob: byte slices, unnamed and of a named type; nil is stored as NULL and read back as nil.
+type SRaw []byte
+
+type SBlob struct {
+	ID   int64  `db:"id"`
+	Raw  []byte `db:"raw"`
+	Body SRaw   `db:"body"`
+}
+
 type SIDs []int64
 
 type sqliteType struct {
@@ -101,6 +110,7 @@ var sqliteTypes = []sqliteType{
 	{reflect.TypeOf(SOmit2{}), []string{"cnt", "id", "note"}, "id INTEGER, note TEXT, cnt INTEGER"},
 	{reflect.TypeOf(SOmitPtr{}), []string{"cnt", "id", "label"}, "id INTEGER, cnt INTEGER, label TEXT"},
 	{reflect.TypeOf(SEmb{}), []string{"active", "data", "extra", "id", "name", "score"}, "id INTEGER, name TEXT, score REAL, data BLOB, active BOOLEAN, extra TEXT"},
+	{reflect.TypeOf(SBlob{}), []string{"body", "id", "raw"}, "id INTEGER, raw BLOB, body BLOB"},
 	{reflect.TypeOf(SDeep{}), []string{"alt", "city", "code", "email", "id", "lat", "lon", "zone"}, "id INTEGER, email TEXT, city TEXT, lat REAL, lon REAL, alt INTEGER, zone TEXT, code INTEGER"},
 }
 
